@@ -322,7 +322,7 @@ def write_evidence(pid, tier, seed, level, coverage, assumptions, wall, violatio
 def replay(pid, path):
     rec = json.load(open(path))
     print('replay of %s (%s)' % (path, rec.get('kind')))
-    if rec.get('kind') != 'correspondence':
+    if rec.get('kind') != 'correspondence' or (rec.get('cmd') or ['x'])[0] == 'lschecks':
         print(json.dumps(rec, indent=1))
         return 0
     ok, out = cargo_step()
@@ -371,6 +371,13 @@ def main(argv):
         return 2
 
 
+def _count_keys(fs):
+    d = {}
+    for f in fs:
+        d[str(f['key'])] = d.get(str(f['key']), 0) + 1
+    return d
+
+
 def run_check(pid, spec, tier, seed, t0):
     import registry
     violations = []   # list of (replay_path, suffix)
@@ -379,7 +386,10 @@ def run_check(pid, spec, tier, seed, t0):
     okg, outg = gen_step()
     if not okg:
         raise MachineryError('translator failed: ' + outg[-2000:])
-    cq = coq_step(pid)
+    if spec.get('no_coq') and not os.path.exists(os.path.join(COQ, 'Props', pid + '.v')):
+        cq = dict(ok=True, obligations=0, discharged=0, failing=[], log='', assumptions={})
+    else:
+        cq = coq_step(pid)
     log('coq: %d/%d obligations discharged%s' % (cq['discharged'], cq['obligations'], '' if cq['ok'] else ' -- ' + '; '.join(cq['failing'])))
     # 2. harness + driver
     okc, outc = cargo_step()
@@ -415,12 +425,12 @@ def run_check(pid, spec, tier, seed, t0):
     # group unknown failures by key/why prefix, report up to 5 replays
     groups = {}
     for f in unknown:
-        groups.setdefault((f['key'], f['why'][:60]), []).append(f)
+        groups.setdefault((f['key'], '' if f['key'] else f['why'][:60]), []).append(f)
     for gi, ((key, why), fs) in enumerate(sorted(groups.items(), key=lambda kv: str(kv[0]))):
         fs.sort(key=lambda f: len(f['case']))
         path = write_replay(pid, gi + 1, dict(fs[0], count=len(fs)))
         violations.append((path, ''))
-        if gi >= 4:
+        if gi >= 9:
             break
     if not cq['ok']:
         if not violations:
@@ -438,7 +448,7 @@ def run_check(pid, spec, tier, seed, t0):
         rule=spec.get('rule', ''), samples=corr['samples'] or [f['case'] for f in corr['failures'][:2]] or ['(none)'],
         exhaustive=bool(spec.get('exhaustive', False)),
         passed=corr['ok'], skipped=corr['skipped'], skip_reasons=corr['skip_reasons'],
-        failures=len(corr['failures']), known_finding_hits={k: 1 for k in seen_known},
+        failures=len(corr['failures']), failure_keys=_count_keys(corr['failures']), known_finding_hits={k: 1 for k in seen_known},
         distribution=corr['dist'], harness_notes=corr['notes'][:20],
         theorems=cq['assumptions'], explanation=spec.get('explanation', ''),
     )
